@@ -114,6 +114,9 @@ def _case(rng):
             return ['var', rng.choice(same)['name']] if rng.random() < 0.7 else ['lit', str(Fraction(rng.randint(-4, 4), 2))]
         if k < 0.4:
             return ['neg', expr(depth - 1)]
+        if k < 0.5 and tv['dims']:
+            # an operand that is a plain numpy masked array (not one of the file's variables), on either side of an operator
+            return ['mlt', str(rng.randint(-3, 3)), ['var', rng.choice(same)['name']]]
         op = rng.choice(['add', 'sub', 'mul', 'div'])
         if op == 'div':
             # eval does not mask non-finite results: divide by non-zero literals only
